@@ -186,7 +186,43 @@ func checkC15(c *Ctx) {
 				creatable bool
 				limit     int64
 			}{{"fresh", "enc.out", nil, true, -1}, {"existing", "enc.out", []byte("old"), true, -1}, {"missing-dir", "nodir/enc.out", nil, false, -1},
-				{"fsize-0", "enc.out", nil, true, 0}, {"fsize-50", "enc.out", nil, true, 50}, {"fsize-250", "enc.out", nil, true, 250}} {
+				{"fsize-0", "enc.out", nil, true, 0}, {"fsize-50", "enc.out", nil, true, 50}, {"fsize-250", "enc.out", nil, true, 250},
+				{"fsize-sweep", "enc.out", nil, true, -2}} {
+				if o.limit == -2 {
+					// every byte offset at which a small output can fail (the last lines of the armor included)
+					if n > 100 {
+						continue
+					}
+					ref, _, _, _ := encryptImplNoTape(&scenario{parties: []*party{pty}, plain: plain, armor: armor})
+					step := 1
+					if !c.thorough() {
+						step = 3
+					}
+					for lim := 0; lim <= len(ref)+1; lim += step {
+						if lim > len(ref)-45 {
+							step = 1
+						}
+						os.Remove(filepath.Join(dir, "enc.out"))
+						a2 := []string{"-r", rcptString(pty), "-o", "enc.out"}
+						if armor {
+							a2 = append(a2, "-a")
+						}
+						res := runCLI("age", append(a2, "plain.bin"), cliOpts{dir: dir, fsize: int64(lim)})
+						got, exists := readState(filepath.Join(dir, "enc.out"))
+						wantOK := lim >= len(ref)
+						okc := res.exit == 0
+						complete := false
+						if exists && okc {
+							_, out, oc := decryptImpl(bytes.NewReader(got), armor, nativeIDs(pty))
+							complete = bytes.Equal(out, plain) && oc == ":eof"
+						}
+						in := map[string]interface{}{"op": "encrypt", "plain_len": n, "armor": armor, "output": fmt.Sprintf("RLIMIT_FSIZE=%d of %d", lim, len(ref))}
+						c.Oracle("encrypt-exit-0-iff-complete-file", okc == wantOK && (!okc || complete), "encrypt-exit", in, fmt.Sprintf("exit %d, output complete: %v", res.exit, complete))
+						c.note(fmt.Sprint("encsweep", n, armor, lim), true)
+						c.count("encrypt-fsize-sweep")
+					}
+					continue
+				}
 				os.Remove(filepath.Join(dir, "enc.out"))
 				if o.pre != nil {
 					os.WriteFile(filepath.Join(dir, o.arg), o.pre, 0o600)
@@ -220,7 +256,8 @@ func checkC15(c *Ctx) {
 	// ---- same-file refusal ----
 	pwd := dir
 	spell := func(x string) []string {
-		return []string{x, "./" + x, "d/../" + x, filepath.Join(pwd, x), ".//" + x, "d/./../" + x}
+		return []string{x, "./" + x, "d/../" + x, filepath.Join(pwd, x), ".//" + x, "d/./../" + x,
+			pwd + "/./" + x, pwd + "//" + x, pwd + "/d/../" + x, pwd + "/d/.././" + x}
 	}
 	valid := inputs[2]
 	os.WriteFile(filepath.Join(dir, "same.age"), valid.file, 0o600)
@@ -279,6 +316,41 @@ func checkC15(c *Ctx) {
 		res = runCLI("age-keygen", []string{"-o", "k2.txt"}, cliOpts{dir: dir, fsize: lim})
 		c.Oracle("keygen-write-failure-is-an-error", res.exit != 0, "keygen-exit0-write-failed", fmt.Sprintf("age-keygen -o with RLIMIT_FSIZE=%d", lim), "exit 0 although the key file could not be written completely")
 		c.count("keygen-fsize")
+	}
+	// ---- passphrase flows through a pseudo-terminal (age asks on /dev/tty) ----
+	{
+		plain := []byte("passphrase protected\n")
+		os.WriteFile(filepath.Join(dir, "pp.txt"), plain, 0o600)
+		os.Remove(filepath.Join(dir, "pp.age"))
+		enc := runPty(dir, [][2]string{{"Enter passphrase", "correct horse"}, {"Confirm passphrase", "correct horse"}}, binPath("age"), "-p", "-o", "pp.age", "pp.txt")
+		_, encExists := readState(filepath.Join(dir, "pp.age"))
+		c.Oracle("passphrase-encrypt-delivers", enc == 0 && encExists, "pty-encrypt", nil, fmt.Sprintf("age -p exit %d, output exists %v", enc, encExists))
+		mism := runPty(dir, [][2]string{{"Enter passphrase", "one"}, {"Confirm passphrase", "two"}}, binPath("age"), "-p", "-o", "pp2.age", "pp.txt")
+		_, ex2 := readState(filepath.Join(dir, "pp2.age"))
+		c.Oracle("mismatched-confirmation-writes-nothing", mism != 0 && !ex2, "pty-encrypt-mismatch", nil, fmt.Sprintf("exit %d, output exists %v", mism, ex2))
+		for _, pre := range [][]byte{nil, []byte("previous")} {
+			os.Remove(filepath.Join(dir, "pp.out"))
+			if pre != nil {
+				os.WriteFile(filepath.Join(dir, "pp.out"), pre, 0o600)
+			}
+			wrong := runPty(dir, [][2]string{{"Enter passphrase", "wrong horse"}}, binPath("age"), "-d", "-o", "pp.out", "pp.age")
+			got, exists := readState(filepath.Join(dir, "pp.out"))
+			model := c.model.Call("cli_decrypt", fstateSx(pre, pre != nil), lst(":true", ":none", ":true"), ":refused")
+			cliCase("decrypt-passphrase", map[string]interface{}{"op": "decrypt -p", "passphrase": "wrong", "preexisting": pre != nil}, wrong == 0, fstateSx(got, exists), model)
+			c.Oracle("header-refusal-leaves-output-untouched", wrong != 0 && ((pre == nil && !exists) || (pre != nil && bytes.Equal(got, pre))), "output-touched-on-refusal", "wrong passphrase", "the -o file was created or modified although the passphrase was wrong")
+		}
+		os.Remove(filepath.Join(dir, "pp.out"))
+		right := runPty(dir, [][2]string{{"Enter passphrase", "correct horse"}}, binPath("age"), "-d", "-o", "pp.out", "pp.age")
+		got, exists := readState(filepath.Join(dir, "pp.out"))
+		model := c.model.Call("cli_decrypt", ":absent", lst(":true", ":none", ":true"), lst(":plain", hx(plain)))
+		cliCase("decrypt-passphrase", map[string]interface{}{"op": "decrypt -p", "passphrase": "right"}, right == 0, fstateSx(got, exists), model)
+		// a passphrase file given identities is refused at the header
+		os.Remove(filepath.Join(dir, "pp.out"))
+		res := runCLI("age", []string{"-d", "-i", "key.txt", "-o", "pp.out", "pp.age"}, cliOpts{dir: dir, fsize: -1})
+		_, exists = readState(filepath.Join(dir, "pp.out"))
+		c.Oracle("header-refusal-leaves-output-untouched", res.exit != 0 && !exists, "output-touched-on-refusal", "passphrase file with -i", "")
+		c.count("passphrase-pty")
+		c.note("pty", true)
 	}
 	c.note("keygen-misc", true)
 	c.sample(map[string]interface{}{"op": "decrypt", "input": "valid-0 (empty payload)", "output": "-o nodir/out.bin", "expected": "non-zero exit, nothing created (finding F4)"})
